@@ -11,7 +11,7 @@ theorem samplingOf_swap (m : Sampling) (w1 w2 : List ℚ) : samplingOf m.swap w2
 
 theorem toWave_self (s : USpec) : toWave s.wu s = s := by
   cases s with
-  | mk wave value wu vu => cases vu <;> simp [toWave, waveTo_self]
+  | mk wave value wu vu => cases vu <;> simp [toWave_eq, waveTo_self]
 
 /-- `y` is the value at `x` of the piecewise-linear function through the points `(xs[i], ys[i])` — the mathematical
 interpolant, stated without reference to the model's `seg`/`interpAt` -/
@@ -98,7 +98,22 @@ theorem commonGrid_eq (mn mx dw : ℚ) (h : 0 ≤ gridNum mn mx dw) :
   congr 1
   omega
 
+theorem gridNum_scale (mn mx dw k : ℚ) (hk : 0 < k) (hdw : dw ≠ 0) :
+    gridNum (mn * k) (mx * k) (dw * k) = gridNum mn mx dw := by
+  rw [gridNum_eq, gridNum_eq, gridTol_eq, gridTol_eq]
+  congr 1
+  have hk' : k ≠ 0 := ne_of_gt hk
+  field_simp
+
 theorem interpMin_eq (a b : ℚ) : Gen.interpMin a b = min a b := rfl
 theorem interpMax_eq (a b : ℚ) : Gen.interpMax a b = max a b := rfl
+
+theorem gridNum_pos (mn mx dw : ℚ) (hdw : 0 < dw) (h : gridTol dw < mx - mn) : 1 ≤ gridNum mn mx dw := by
+  rw [gridNum_eq]
+  have : ((0 : Int) : ℚ) < (mx - mn - gridTol dw) / dw := by
+    simp only [Int.cast_zero]; apply div_pos (by linarith) hdw
+  have := Rat.lt_ceil_iff.mpr this
+  omega
+
 
 end Lentil.Spec
